@@ -30,14 +30,21 @@ W3 = {"stakers": 2, "operators": 2, "assets": ["lst", "nst"], "holdops": ["o1"],
       "scales": ["1", "1000003"], "blocksPer": 5, "modelPrec": 100}
 # lead configurations: invariants that the FAITHFUL model violates exactly when the code has the
 # corresponding defect; TLC's shortest counterexample is replayed on the real code (DESIGN 2.2)
-LEADS = [("MC_Ledger_t.tla", "MC_Ledger_lead_atomic.cfg", W3)]
+LEADS = [("MC_Ledger_t.tla", "MC_Ledger_lead_atomic.cfg", dict(W3, blocksPer=10))]
 
 # goal-directed generation: breadth-first TLC runs that print a shortest behaviour for every coverage
 # goal (named branch of the transcription, Ledger!Goals) -> (module, cfg, harness world)
 W4 = {"stakers": 2, "operators": 2, "assets": ["nat", "lst"], "holdops": ["o1"],
       "scales": ["1", "1000003"], "blocksPer": 5, "modelPrec": 100}
-GOALS = [("MC_Ledger_goalA.tla", "MC_Ledger_goal_A.cfg", [W1, W1P]), ("MC_Ledger_goalA.tla", "MC_Ledger_goal_A2.cfg", [W1]),
-         ("MC_Ledger_goalB.tla", "MC_Ledger_goal_B.cfg", [W3]), ("MC_Ledger_n.tla", "MC_Ledger_goal_N.cfg", [W4])]
+def _g(w):
+    """goal configs use UNBOND = 1: ten real blocks per model EndBlock; moderate scales so that the slash
+    power (scaled like the amounts) still fits int64"""
+    return dict(w, blocksPer=10, scales=["1", "1000003"])
+
+
+GOALS = [("MC_Ledger_goalA.tla", "MC_Ledger_goal_A.cfg", [_g(W1), _g(W1P)]), ("MC_Ledger_goalA.tla", "MC_Ledger_goal_A2.cfg", [_g(W1)]),
+         ("MC_Ledger_goalB.tla", "MC_Ledger_goal_B.cfg", [_g(W3)]), ("MC_Ledger_goalB.tla", "MC_Ledger_goal_C.cfg", [_g(W3)]),
+         ("MC_Ledger_n.tla", "MC_Ledger_goal_N.cfg", [_g(W4)])]
 
 ALL_GOALS = """dep_ok wd_ok wd_over_balance_within_total wd_within_balance_over_total del_first_into_pool del_skewed_rate del_self
 del_native del_again_after_empty del_top_up del_with_codelegator del_over_withdrawable und_partial und_full_exit_others_remain
@@ -45,6 +52,7 @@ und_last_share und_skewed_rate und_hold_placed und_native und_self und_second_pe
 assoc_with_position dissoc_with_position hold_released eb_release eb_release_two_in_one_block eb_release_partly_slashed
 eb_release_fully_slashed eb_release_native eb_requeue_held eb_release_after_requeue slash_partial slash_full slash_wipes_pool
 slash_hits_pending_record slash_record_to_zero slash_spares_older_record slash_multi_asset slash_pool_fully_unbonding_other_bonded
+slash_partial_pool_fully_unbonding_other_bonded slash_partial_hits_pending_record
 slash_infraction_at_current_height slash_replay slash_factor_above_one slash_zero_value_operator nst_up
 nst_down_within_withdrawable nst_down_ends_inside_pending_records nst_down_reaches_shares nst_down_shares_two_operators
 nst_down_skips_zero_share_row""".split()
